@@ -227,7 +227,12 @@ def parse_casstype_args(typestring):
             else:
                 names.append(None)
 
+            # only a VectorType takes an integer parameter (its dimension); any other
+            # all-digit token is a name (e.g. the hex-encoded name of a UserType)
+            enclosing = args[-2][0][-1] if len(args) > 1 and args[-2][0] else None
             try:
+                if not (isinstance(enclosing, type) and issubclass(enclosing, VectorType)):
+                    raise ValueError(tok)
                 ctype = int(tok)
             except ValueError:
                 ctype = lookup_casstype_simple(tok)
